@@ -256,12 +256,18 @@ fn main() {
             if !bad.is_empty() { std::process::exit(3); }
         }
         "number-units" => {
-            let pick = |k: u8| match k { 0 => None, 1 => libhaystack::units::get_unit("m"), _ => libhaystack::units::get_unit("s") };
+            // two database units that differ only in their identifiers (same quantity, dimensions, scale, offset) -- the
+            // closest real counterparts of the harness' synthetic units "m" and "s"
+            let pick = |k: u8| match k { 0 => None, 1 => libhaystack::units::get_unit("pixel"), _ => libhaystack::units::get_unit("decibel") };
             let (ka, kb) = (args[2].parse::<u8>().unwrap(), args[3].parse::<u8>().unwrap());
             let a = Number { value: args[4].parse::<f64>().unwrap(), unit: pick(ka) };
             let b = Number { value: args[5].parse::<f64>().unwrap(), unit: pick(kb) };
-            let bad = laws(&a, &b, &a);
-            println!("RESULT {fam} a={a:?} b={b:?} eq={} cmp={:?} partial={:?} violated={bad:?}", a == b, a.cmp(&b), a.partial_cmp(&b));
+            let mut bad = laws(&a, &b, &a);
+            // C16: + and - fail exactly for two different units, else keep the common unit
+            let differ = ka != 0 && kb != 0 && ka != kb;
+            let sum = a + b;
+            if sum.is_err() != differ { bad.push("add-fails-iff-different-units"); }
+            println!("RESULT {fam} a={a:?} b={b:?} eq={} cmp={:?} partial={:?} add={:?} violated={bad:?}", a == b, a.cmp(&b), a.partial_cmp(&b), sum.map(|n| n.value));
             if !bad.is_empty() { std::process::exit(3); }
         }
         "coord-laws" | "coord-hash" => {
